@@ -1,2 +1,52 @@
-From Coq Require Import List.
-Theorem C04_placeholder : True. Proof. exact I. Qed.
+(* C04 - generated source is a faithful, self-contained compilation of the traced graph.
+   Model/Ir.v: the graph IR with its node-by-node symbolic evaluation [seval] and the
+   straight-line Python subset with its symbolic execution [sexec]; IrEq.agree is the validator
+   run (extracted) on every captured (graph, text) pair. *)
+From Coq Require Import String List ZArith.
+From EinxV Require Import Model.Ir Model.IrEq Proofs.CodeSemProofs.
+Import ListNotations.
+
+(* Symbolic execution of the text is exactly a concrete execution on a store of values in which
+   assignments overwrite earlier bindings, for every value domain and every interpretation of
+   the primitives (call results may depend on the whole history = mutation through references):
+   re-used variable names, evaluation order and multiplicity of calls are accounted for. *)
+Theorem C04_symbolic_execution_is_faithful :
+  forall (V : Type) (d : V) c_in c_int c_str c_none c_bool c_float c_tuple c_list c_dict c_slice c_attr c_item c_op c_pure
+         c_import c_builtin c_const c_call c_update c_assert fuel pre c r,
+    sexec fuel pre c = Some r ->
+    cexec V c_in c_int c_str c_none c_bool c_float c_tuple c_list c_dict c_slice c_attr c_item c_op c_pure c_import c_builtin c_const
+          c_call c_update c_assert fuel pre c
+    = Some (denote V d c_in c_int c_str c_none c_bool c_float c_tuple c_list c_dict c_slice c_attr c_item c_op c_pure c_import
+                   c_builtin c_const c_call c_update c_assert r).
+Proof. intros. eapply sexec_sound. eassumption. Qed.
+Print Assumptions C04_symbolic_execution_is_faithful.
+
+(* If the validator accepts a (graph, text) pair then running the text yields, for every
+   interpretation, the result and the ordered effect history that evaluating the graph node by
+   node (each application once, demand driven) denotes. *)
+Theorem C04_validator_sound : forall fuel g pre c,
+  agree fuel g pre c = true ->
+  exists rg, seval fuel g = Some rg /\
+    forall (V : Type) (d : V) c_in c_int c_str c_none c_bool c_float c_tuple c_list c_dict c_slice c_attr c_item c_op c_pure
+           c_import c_builtin c_const c_call c_update c_assert,
+      cexec V c_in c_int c_str c_none c_bool c_float c_tuple c_list c_dict c_slice c_attr c_item c_op c_pure c_import c_builtin c_const
+            c_call c_update c_assert fuel pre c
+      = Some (denote V d c_in c_int c_str c_none c_bool c_float c_tuple c_list c_dict c_slice c_attr c_item c_op c_pure c_import
+                     c_builtin c_const c_call c_update c_assert rg).
+Proof. exact agree_sound. Qed.
+Print Assumptions C04_validator_sound.
+
+(* non-vacuity: a graph with a value used twice and an in-place call, and its text with a re-used name *)
+Open Scope string_scope.
+Example C04_example :
+  let np := GRef 1 [] in
+  let g := {| g_nodes := [(0, AInput 0); (1, AImport "numpy" None); (2, AGetAttr np "reshape"); (3, AGetAttr np "put");
+                          (4, ACall (GRef 2 []) [GRef 0 []; GTuple [GInt 6]] []);
+                          (5, ACallInplace (GRef 4 []) (GRef 3 []) [GRef 4 []; GInt 0; GInt 1] [])];
+              g_output := GRef 5 [] |} in
+  let c := {| c_params := ["a"];
+              c_body := [StAssign "a" (XCall (XAttr (XVar "np") "reshape") [XVar "a"; XTuple [XInt 6]] []);
+                         StExpr (XCall (XAttr (XVar "np") "put") [XVar "a"; XInt 0; XInt 1] [])];
+              c_ret := XVar "a" |} in
+  agree 50 g [StImport "numpy" None "np"] c = true.
+Proof. vm_compute. reflexivity. Qed.
